@@ -68,6 +68,24 @@ def run(pid, tier, seed):
         sig = "mailbox-t first-unexplained=%s gen=%s" % (lab, json.dumps(meta.get("gen")))
         v.violation(sig, {"family": "mailbox-t", "meta": meta, "trace": [json.loads(x) for x in viol["run"]],
                           "first_unexplained": viol.get("lenient_event_index"), "event": ev})
+    # V2b: the real processing loop (free running) against a controlled sender thread parked between admission and
+    # enqueue while drain() is called: a scripted sequence, re-executed on replay
+    trace2b = os.path.join(w, "batch_hybrid.ndjson")
+    summ2b = vlib.harness(["mailbox-hybrid", "--out", trace2b, "--tier", tier, "--seed", seed])
+    if summ2b.get("bad_runs"):
+        log("[V] mailbox-hybrid: %d runs did not follow the script (sender not parked after admission, or the actor did not stop)" % summ2b["bad_runs"])
+    vb2b = vlib.validate_batch("Trace_Mailbox", "Trace_Mailbox.cfg", trace2b, "mailbox_hybrid_" + pid, start_lenient=True)
+    log("[V] mailbox-hybrid: %d runs, %d accepted on their observations, %d rejected" % (summ2b["runs"], vb2b["lenient_accepted"], len(vb2b["violations"])))
+    for viol in vb2b["violations"]:
+        meta = json.loads(viol["run"][0]).get("meta", {})
+        ev = viol.get("lenient_event") or "{}"
+        try:
+            lab = json.loads(ev).get("a", "?")
+        except Exception:
+            lab = "?"
+        v.violation("mailbox-hybrid %s first-unexplained=%s" % (meta.get("shape"), lab),
+                    {"family": "mailbox-hybrid", "meta": meta, "trace": [json.loads(x) for x in viol["run"]],
+                     "first_unexplained": viol.get("lenient_event_index"), "event": ev})
     # V3 (thorough): the same roles on free-running OS threads -- reaches, by chance, windows inside code that has
     # no schedule point; observations only
     free = {"runs": 0, "lenient_accepted": 0}
@@ -88,7 +106,8 @@ def run(pid, tier, seed):
         "transitions": sum(m["transitions"] for m in mcs),
         "traces_validated_against_impl": vb["strict_accepted"] + vb["lenient_accepted"] + len(vb["divergences"]) + vb2["lenient_accepted"],
         "samples": summ.get("samples", [])[:3],
-        "evaluations": summ["runs"] + summ2["runs"],
+        "evaluations": summ["runs"] + summ2["runs"] + summ2b["runs"],
+        "hybrid_runs_real_loop_vs_parked_sender": summ2b["runs"],
         "api_level_runs": summ2["runs"],
         "free_running_runs": free,
         "distinct_nontrivial": summ["distinct_nontrivial"] + summ2["distinct_nontrivial"],
@@ -116,7 +135,11 @@ def replay(pid, path):
     w = vlib.workdir("replay_" + pid)
     out = os.path.join(w, "replay.ndjson")
     meta = rp["meta"]
-    if rp.get("family") == "mailbox-t":
+    if rp.get("family") == "mailbox-hybrid":
+        # the scripted sequence is deterministic: run all of its variants again on the current tree
+        vlib.harness(["mailbox-hybrid", "--out", out, "--tier", "quick", "--seed", 1])
+        vb = vlib.validate_batch("Trace_Mailbox", "Trace_Mailbox.cfg", out, "replay_" + pid, start_lenient=True)
+    elif rp.get("family") == "mailbox-t":
         vlib.harness(["mailbox-t-replay", "--gen", json.dumps(meta.get("gen")), "--sched", json.dumps(meta.get("sched", [])), "--out", out])
         vb = vlib.validate_batch("Trace_Mailbox", "Trace_Mailbox.cfg", out, "replay_" + pid, start_lenient=True)
     else:
